@@ -252,6 +252,20 @@ def bb_scenarios(rng, tier):
          [{"op": "load", "cfg": 0}, req(t, R), {"op": "load", "cfg": 1}, req(t + 2, R), {"op": "load", "cfg": 0}, req(t + 3, R)])
     scen("reload-readd-tolerance-shrunk", "replay-after-readd", [cfg("5m"), cfg(hooks="none"), cfg("2s")],
          [{"op": "load", "cfg": 0}, req(t, R), {"op": "load", "cfg": 1}, {"op": "load", "cfg": 2}, req(t + 2 * SEC, R)])
+    # 2c. a reload that completes while a request is IN FLIGHT (after the handler fetched the route's authenticator, before that
+    #     authenticator looked at the request): the nonce is spent for the authenticators that follow as well - the same bytes presented
+    #     after the reload are a replay.  (Same configuration before and after, so only what is remembered is at stake.)
+    for k in range(3):
+        Rin = bb_request(ts, "inflight-%d" % k)
+        other = bb_request(ts + 1, "inflight-other-%d" % k)
+        steps = [{"op": "load", "cfg": 0}]
+        if k == 1:
+            steps.append(req(t, other))
+        steps.append(req(t + 1, Rin, reload_in_flight=True, reload_cfg=0))
+        if k == 2:
+            steps += [{"op": "load", "cfg": 0}, req(t + 2, other, reload_in_flight=True, reload_cfg=0)]
+        steps += [req(t + 5, Rin), req(t + DUR["5m"], Rin), req(t + 6, bb_request(ts, "inflight-fresh-%d" % k))]
+        scen("reload-in-flight-%d" % k, "replay-after-reload", [cfg()], steps)
     # 2a. the same with routes that take their keys from the secret pool only (secret_ref): unchanged file, a version added, tolerance shrunk
     Rp = bb_request(ts, "rl-ref-1")
     scen("reload-same-secret-ref", "replay-after-reload", [cfg(ref=True)],
@@ -328,6 +342,10 @@ def bb_coq(scen):
             if cur["hooks"] == "none":
                 plan.append(("req404", None, cur))
             else:
+                if st.get("reload_in_flight"):
+                    # the reload (same configuration) completes before the old authenticator looks at the request
+                    mc = bb_model_cfg(scen["_cfgs"][st["reload_cfg"]])
+                    evs.append("EReload %s" % ("None" if mc is None else "(Some %s)" % G.coq_hmac_cfg(I, mc)))
                 evs.append(ev(st["now"], st["_r"]))
                 plan.append(("req", len(evs) - 1, cur))
         elif st["op"] == "concurrent":
